@@ -401,8 +401,10 @@ func (p *proxyConn) handle() error {
 
 func (p *proxyConn) writeErrorResponse(req *http.Request, err error) error {
 	res := maybeConnectErrorResponse(err)
+	var challenge []string
 	if res == nil {
 		res = p.errorResponse(req, err)
+		challenge = res.Header.Values("Proxy-Authenticate")
 	}
 	if err := p.modifyResponse(res); err != nil {
 		log.Error(req.Context(), "error modifying error response", "error", err)
@@ -410,6 +412,7 @@ func (p *proxyConn) writeErrorResponse(req *http.Request, err error) error {
 			proxyutil.Warning(res.Header, err)
 		}
 	}
+	restoreChallenge(res, challenge)
 	return p.writeResponse(res)
 }
 
